@@ -47,7 +47,7 @@ def _depth_scan(s):
             yield i, c, depth
         elif c == "<":
             # generic bracket unless surrounded by spaces (comparison) or part of '<='/'<<'
-            if i + 1 < n and s[i + 1] in " =<":
+            if i + 1 < n and s[i + 1] in " =":
                 yield i, c, depth
             else:
                 yield i, c, depth
@@ -179,6 +179,8 @@ class Operand:
 
 def parse_operand(s):
     s = s.strip()
+    if s.startswith("no_retag "):
+        s = s[len("no_retag "):]
     if s.startswith("move "):
         return Operand("move", parse_place(s[5:]))
     if s.startswith("copy "):
@@ -186,9 +188,10 @@ def parse_operand(s):
     if s.startswith("const "):
         return Operand("const", const=s[6:].strip())
     # bare place (old printer) — treat as copy
-    if s.startswith("_") or s.startswith("("):
+    if re.match(r"^_\d+$", s) or s.startswith("("):
         return Operand("copy", parse_place(s))
-    raise Unsupported("operand: " + s)
+    # function items are printed without `const`
+    return Operand("const", const=s)
 
 
 # ---------------------------------------------------------------------------------------------
@@ -217,6 +220,7 @@ class Function:
         return self.name.split("::")[-1]
 
 
+CONST_HEAD = re.compile(r"^const (.+): (.+) = \{$")
 FN_HEAD = re.compile(r"^fn (.+?)\((.*)\) -> (.+) \{$")
 LET_RE = re.compile(r"^\s*let (?:mut )?_(\d+): (.+);$")
 BB_RE = re.compile(r"^    (bb\d+)( \(cleanup\))?: \{$")
@@ -231,6 +235,35 @@ def parse_mir(text):
     n = len(lines)
     while i < n:
         line = lines[i]
+        mconst = CONST_HEAD.match(line)
+        if mconst:
+            f = Function("const:" + mconst.group(1), line)
+            f.line = i + 1
+            f.ret_ty = mconst.group(2)
+            i += 1
+            cur = None
+            while i < n and lines[i] != "}":
+                l = lines[i]
+                mb = BB_RE.match(l)
+                if mb:
+                    cur = Block(mb.group(1), bool(mb.group(2)))
+                    f.blocks[cur.name] = cur
+                elif cur is not None:
+                    if l.strip() == "}":
+                        if cur.stmts:
+                            cur.term = cur.stmts.pop()
+                        cur = None
+                    else:
+                        t = l.strip()
+                        cur.stmts.append(t[:-1] if t.endswith(";") else t)
+                else:
+                    ml = LET_RE.match(l)
+                    if ml:
+                        f.locals[int(ml.group(1))] = ml.group(2)
+                i += 1
+            fns[f.name] = f
+            i += 1
+            continue
         if line.startswith("fn ") and line.endswith("{"):
             # header: name(args) -> ret {   — name may contain parentheses-free generics only
             k = _find_args_open(line)
